@@ -381,8 +381,13 @@ JudgeCloseFarm(s, h, e, p) ==
        C11_close_available     |-> G(known /\ (e.sender = f.owner \/ e.sender = h.fmOwner) /\ e.funds = <<>>, e.ok),
        C20_farm_rejected_noop  |-> G(~e.ok, Unchanged(s, p)) ]
 
+(* configuration rules that are not part of the listed properties (S_): the unlocking range is ordered, farms expire no
+   sooner than a month after their end, the penalty is at most 100 %, the farm limit is positive and never lowered *)
+Month == BNat(2629746)
+CfgValid(c) == BLe(c.minDur, c.maxDur) /\ BLe(Month, c.expiry) /\ BLe(c.penalty, Dec18) /\ c.maxFarms > 0
 JudgeUpdateConfig(s, h, e, p) ==
-  [ C15_fm_config_only_owner |-> G(e.ok, e.sender = h.fmOwner /\ e.funds = <<>>),
+  [ S_config_valid_after_update |-> G(e.ok, CfgValid(p.fm.cfg) /\ p.fm.cfg.maxFarms >= s.fm.cfg.maxFarms),
+    C15_fm_config_only_owner |-> G(e.ok, e.sender = h.fmOwner /\ e.funds = <<>>),
     C15_fm_config_touches_only_config |-> G(e.ok, p.bal = s.bal /\ p.supply = s.supply /\ Farms(p) = Farms(s) /\ Pos(p) = Pos(s) /\ p.fm.hist = s.fm.hist),
     C20_farm_rejected_noop |-> G(~e.ok, Unchanged(s, p)) ]
 
@@ -414,7 +419,7 @@ JudgePages(e) ==
 (* ------------------------------------------------------------------ the trace *)
 Kind(e) == e.ev
 Judge(s, h, e) ==
-  LET p == IF Kind(e) \in {"twin", "q_pages"} THEN s ELSE e.post IN
+  LET p == IF Kind(e) \in {"twin", "q_pages", "fm_instantiate"} THEN s ELSE e.post IN
   CASE Kind(e) = "reset" -> NoGuards
     [] Kind(e) = "twin" -> JudgeTwin(e)
     [] Kind(e) = "q_pages" -> JudgePages(e)
@@ -428,6 +433,7 @@ Judge(s, h, e) ==
     [] Kind(e) = "fm_expand_farm" -> JudgeExpandFarm(s, h, e, p)
     [] Kind(e) = "fm_close_farm" -> JudgeCloseFarm(s, h, e, p)
     [] Kind(e) = "fm_update_config" -> JudgeUpdateConfig(s, h, e, p)
+    [] Kind(e) = "fm_instantiate" -> [ S_instantiate_validates_config |-> Must(e.ok <=> CfgValid(e.cfg)) ]
 NextHid(s, h, e) ==
   LET p == e.post IN
   CASE Kind(e) = "reset" -> Hid0(e) @@ [fmOwner |-> "u1"]
@@ -442,10 +448,10 @@ Init == l = 1 /\ cnt = NoGuards /\ st = [none |-> TRUE] /\ hid = [none |-> TRUE]
 Step == /\ l <= Len(Rec)
         /\ LET e == Rec[l]
                h1 == NextHid(st, hid, e)
-               gs == Judge(st, hid, e) @@ (IF Kind(e) \in {"reset", "twin", "q_pages"} THEN NoGuards ELSE Invariants(e.post, h1) @@ ModelGuards(st, e, e.post) @@ PositionLimits(e.post, h1))
+               gs == Judge(st, hid, e) @@ (IF Kind(e) \in {"reset", "twin", "q_pages", "fm_instantiate"} THEN NoGuards ELSE Invariants(e.post, h1) @@ ModelGuards(st, e, e.post) @@ PositionLimits(e.post, h1))
            IN /\ Report(e.i, e.sc, gs)
               /\ cnt' = Count(cnt, gs)
-              /\ st' = IF Kind(e) \in {"twin", "q_pages"} THEN st ELSE e.post
+              /\ st' = IF Kind(e) \in {"twin", "q_pages", "fm_instantiate"} THEN st ELSE e.post
               /\ hid' = h1
         /\ l' = l + 1
 Finish == l = Len(Rec) + 1 /\ PrintCounts(cnt) /\ l' = l + 1 /\ UNCHANGED <<cnt, st, hid>>
